@@ -1056,8 +1056,10 @@ pub fn check_c17(ctx: &mut Ctx, cfg: &Cfg, how: How) {
             let case = || cfg_case("c17", cfg, how).set("buffer_len", l);
             let class = if outs[0] == WOut::Ok(0) || matches!(outs[0], WOut::Ok(_)) { "ok" } else if n.is_some() { "too-small" } else { "invalid" };
             ctx.class_dyn(format!("c17:{kind}:{class}:{}:{}", pk(cfg), if n.map(|n| l > n).unwrap_or(false) { "slack" } else { "exact-or-less" }));
-            if let Some(p) = outs.iter().find_map(|o| if let WOut::Panic(p) = o { Some(p) } else { None }) {
-                ctx.violate("write-panics", kind, &crate::drive::site_file(&p.site), case, "write_into returns", format!("panic at {}: {}", crate::drive::short_site(&p.site), p.msg));
+            if outs.iter().all(|o| matches!(o, WOut::Panic(_))) && outs[0] == outs[1] && outs[0] == outs[2] {
+                // the write unwinds whatever the buffer holds: "never panics" is C06's clause, and nothing
+                // was reported as written, so this property has nothing to judge
+                ctx.class_dyn(format!("c17:other-property:write-panics(C06):{kind}"));
                 return;
             }
             if outs[0] != outs[1] || outs[0] != outs[2] {
